@@ -260,11 +260,27 @@ def search_dispatcher(ctx, valid, n):
         if rec['result'][0] == 'raise':
             culprit = d.names[rec['log'][-1][0]] if rec['log'] else '?'
             key = (rec['result'][1], culprit)
-            if key in seen:
-                continue
-            seen.add(key)
-            ctx.report('dispatcher', 'protocols.decode raises %s (from %s)' % key, dict(n=len(data)),
-                       dict(data=data, frequency=freq, exception=rec['result'][1], decoder=culprit))
+            if key not in seen:
+                seen.add(key)
+                ctx.report('dispatcher', 'protocols.decode raises %s (from %s)' % key, dict(n=len(data)),
+                           dict(data=data, frequency=freq, exception=rec['result'][1], decoder=culprit))
+        # the idle fallback of the streaming thread: an undecoded remainder of more than six durations goes to the Universal
+        # decoder through _decode_universal; a raise there ends DecodeThread.run
+        if len(data) > 6 and rec['result'][0] != 'raise':
+            d.reset()
+            d.set_enabled(set(d.names))
+            try:
+                for _ in range(2):          # twice: the second call meets the held fallback code
+                    d.mod._decode_universal(list(data), freq)
+                ctx.count_eval(key=('universal-fallback', tuple(data[:12]), len(data), freq))
+            except Exception as e:  # noqa
+                key = ('fallback', type(e).__name__)
+                if key not in seen:
+                    seen.add(key)
+                    ctx.report('DecodeThread', 'streaming thread dies in the idle fallback: %s' % type(e).__name__, dict(n=len(data)),
+                               dict(data=data, frequency=freq, exception=repr(e)[:200], fallback=True))
+            finally:
+                vlib.drain_workers()
     # valid first frames of multi-frame protocols: ExpectingMoreData must not come out of the dispatcher either
     for name, fs in sorted(valid.items()):
         p = protoinfo.by_name()[name]
@@ -396,6 +412,14 @@ def replay(path):
             return 0
         except Exception as e:  # noqa
             print('leaks', type(e).__name__, e)
+            return 1
+    if 'data' in r and r.get('fallback'):
+        from pyIRDecoder import protocols
+        try:
+            protocols._decode_universal(list(r['data']), r.get('frequency', 0))
+            return 0
+        except Exception as e:  # noqa
+            print('_decode_universal raises', type(e).__name__, e)
             return 1
     if 'data' in r:
         from pyIRDecoder import protocols
